@@ -20,7 +20,7 @@ let parse_one t =
       | "i" | "im" | "ic" -> Insert (next_z t)   (* const& / && overloads: one model *)
       | "e" -> Emplace (next_z t)
       | "ih" | "ihm" | "ihc" | "eh" -> let h = next_nat t in let k = next_z t in InsertHint (h, k)
-      | "ir" -> InsertRange (next_zlist t)
+      | "ir" | "iru" -> InsertRange (next_zlist t)   (* iru: insert(sorted_unique, first, last) = insert(first, last) *)
       | "as" -> Assign (next_zlist t)
       | "asu" | "asui" -> AssignSorted (next_zlist t)   (* container / iterator-pair overload *)
       | "asi" -> AssignIter (next_zlist t)
